@@ -591,6 +591,37 @@ pub fn run_type<T: Cat + DecodeAll + DecodeLimit>(ctx: &mut Ctx, stream: &str, n
 				if ans != expect {
 					ctx.oracle_fail("C18", format!("{}: skip({}) = {} but decode gives {}", name, hex_or_dash(&bs), ans, &dans[..dans.len().min(60)]));
 				}
+				// the same through inputs that cannot report their remaining length (a custom input and,
+				// under std, IoReader): skip succeeds exactly when decoding succeeds, consuming as much
+				let r = catch_unwind(AssertUnwindSafe(|| {
+					let mut u = UnknownLenInput { data: &bs, pos: 0 };
+					let r = T::skip(&mut u);
+					(r.is_ok(), bs.len() - u.pos)
+				}));
+				let ans_u = match r {
+					Ok((true, rem)) => format!("ok {}", rem),
+					Ok((false, _)) => "err".into(),
+					Err(_) => "panic".into(),
+				};
+				if ans_u != expect {
+					ctx.oracle_fail("C18", format!("{}: skip({}) through an input of unknown length = {} but decode gives {}", name, hex_or_dash(&bs), ans_u, &dans[..dans.len().min(60)]));
+				}
+				#[cfg(feature = "codec-std")]
+				{
+					let r = catch_unwind(AssertUnwindSafe(|| {
+						let mut io = parity_scale_codec::IoReader(std::io::Cursor::new(&bs[..]));
+						let r = T::skip(&mut io);
+						(r.is_ok(), bs.len() - io.0.position() as usize)
+					}));
+					let ans_io = match r {
+						Ok((true, rem)) => format!("ok {}", rem),
+						Ok((false, _)) => "err".into(),
+						Err(_) => "panic".into(),
+					};
+					if ans_io != expect {
+						ctx.oracle_fail("C18", format!("{}: skip({}) through IoReader = {} but decode gives {}", name, hex_or_dash(&bs), ans_io, &dans[..dans.len().min(60)]));
+					}
+				}
 			}
 		},
 		"count" => {
@@ -943,6 +974,34 @@ fn big_stream(ctx: &mut Ctx) {
 			ctx.oracle_fail("C14", format!("decode_from_bytes accepted a truncated {}-byte Bytes", n));
 		}
 	}
+	// the bit-length cap: 2^29 - 1 bits are accepted when the data is there, 2^29 bits never are -
+	// with the 64 MiB of storage words actually present (C03: "bit sequences longer than 2^29-1 bits")
+	#[cfg(feature = "bitvec-f")]
+	{
+		use bitvec::prelude::*;
+		let max_bits: u32 = (1 << 29) - 1;
+		let mut bs = Compact(max_bits + 1).encode();
+		bs.resize(bs.len() + (1 << 26) + 16, 0);
+		macro_rules! cap_case {
+			($store:ty, $order:ty, $label:expr) => {{
+				let r = catch_unwind(AssertUnwindSafe(|| BitVec::<$store, $order>::decode(&mut &bs[..]).map(|b| b.len())));
+				match r {
+					Ok(Err(_)) => {},
+					Ok(Ok(n)) => ctx.oracle_fail("C03", format!("BitVec<{}> accepted a bit sequence of {} bits (the cap is 2^29 - 1) when the storage words are present", $label, n)),
+					Err(_) => ctx.oracle_fail("C03", format!("BitVec<{}>::decode panicked on a count of 2^29 bits", $label)),
+				}
+				let mut ok = Compact(max_bits).encode();
+				ok.resize(ok.len() + (1 << 26), 0);
+				let r = catch_unwind(AssertUnwindSafe(|| BitVec::<$store, $order>::decode(&mut &ok[..]).map(|b| b.len())));
+				if !matches!(r, Ok(Ok(n)) if n == max_bits as usize) {
+					ctx.oracle_fail("C03", format!("BitVec<{}> rejected a well-formed bit sequence of 2^29 - 1 bits", $label));
+				}
+				ctx.count("big:bit-cap-cases", 2);
+			}};
+		}
+		cap_case!(u8, Lsb0, "u8,Lsb0");
+		cap_case!(u64, Msb0, "u64,Msb0");
+	}
 	// a long string (the Vec<u8> bulk path plus UTF-8 validation)
 	for n in [16383usize, 16384, 16385, 40000] {
 		let s: String = (0..n).map(|i| if i % 7 == 0 { 'é' } else { 'a' }).collect();
@@ -951,6 +1010,31 @@ fn big_stream(ctx: &mut Ctx) {
 		let bs = s.encode();
 		let (ans, _) = dec_answer::<String>(&bs);
 		ctx.emit("big-rt", "String", &format!("dec str {}", hex_or_dash(&bs)), &ans);
+	}
+	// multi-byte characters straddling every 16 KiB chunk boundary of the bulk reader
+	for boundary in [16384usize, 32768, 49152] {
+		for ch in ['é', '€', '𝄞'] {
+			for off in 1..ch.len_utf8() {
+				let mut s = "a".repeat(boundary - off);
+				s.push(ch);
+				s.push_str(&"b".repeat(37));
+				let (ans, _) = enc_answer(&s);
+				ctx.emit("big-enc", "String", &format!("enc str {}", val_string(&s, false)), &ans);
+				let bs = s.encode();
+				let (ans, _) = dec_answer::<String>(&bs);
+				ctx.emit("big-rt", "String", &format!("dec str {}", hex_or_dash(&bs)), &ans);
+				// oracle (C02): a valid string decodes to itself
+				if String::decode(&mut &bs[..]).ok().as_deref() != Some(&s[..]) {
+					ctx.oracle_fail("C02", format!("a valid {}-byte string with {:?} across byte offset {} does not decode to itself", s.len(), ch, boundary));
+				}
+				// and a broken character at the same place is rejected
+				let mut bad = bs.clone();
+				let k = bad.len() - 37 - 1;
+				bad[k] = b'a';
+				let (ans, _) = dec_answer::<String>(&bad);
+				ctx.emit("big-rt", "String", &format!("dec str {}", hex_or_dash(&bad)), &ans);
+			}
+		}
 	}
 }
 
@@ -1020,6 +1104,24 @@ fn utf8_stream(ctx: &mut Ctx) {
 // ---------------------------------------------------------------------------------------------
 
 fn len_for<C: Cat + parity_scale_codec::DecodeLength>(ctx: &mut Ctx, name: &str, true_len: fn(&C) -> usize) {
+	// every count-prefix class boundary (the prefix alone decides `len`): canonical forms must give
+	// the count, whatever follows
+	for k in [0u32, 1, 62, 63, 64, 65, (1 << 14) - 2, (1 << 14) - 1, 1 << 14, (1 << 14) + 1, (1 << 16) - 1, 1 << 16,
+		(1 << 30) - 2, (1 << 30) - 1, 1 << 30, (1 << 30) + 1, u32::MAX - 1, u32::MAX] {
+		for extra in [0usize, 3] {
+			let mut bs = Compact(k).encode();
+			bs.extend(std::iter::repeat(0x01).take(extra));
+			let ans = match catch_unwind(AssertUnwindSafe(|| C::len(&bs))) {
+				Ok(Ok(n)) => format!("ok {}", n),
+				Ok(Err(_)) => "err".into(),
+				Err(_) => "panic".into(),
+			};
+			ctx.emit("len-boundary", name, &format!("len {}", hex_or_dash(&bs)), &ans);
+			if ans != format!("ok {}", k) {
+				ctx.oracle_fail("C18", format!("{}: len() of a collection encoding that starts with the count {} = {}", name, k, ans));
+			}
+		}
+	}
 	let n = if ctx.tier_thorough { 600 } else { 60 };
 	let mut g = G::new(ctx.seed ^ 0x1E4 ^ name.len() as u64, 80);
 	for i in 0..n {
@@ -1118,6 +1220,38 @@ pub fn run_mem_type<T: Cat + DecodeWithMemTracking>(ctx: &mut Ctx, name: &'stati
 		// oracle (C12): a non-binding limit is transparent
 		if unl.starts_with("ok") && !top.starts_with(&unl) {
 			ctx.oracle_fail("C12", format!("{}: limit usize::MAX gives {} but unlimited gives {}", name, &top[..top.len().min(60)], &unl[..unl.len().min(60)]));
+		}
+		// the other wrappers stacked on top of the memory tracker must pass every announcement on:
+		// the usage seen through a (non-binding) depth limiter, and through a counting input, is U
+		{
+			let r = catch_unwind(AssertUnwindSafe(|| {
+				let mut s = &bs[..];
+				let mut mi = MemTrackingInput::new(&mut s, usize::MAX);
+				let ok = T::decode_with_depth_limit(100_000, &mut mi).is_ok();
+				(ok, mi.used_mem())
+			}));
+			match r {
+				Ok((ok, used)) => {
+					if ok != top.starts_with("ok") || (ok && used != u) {
+						ctx.oracle_fail("C12", format!("{}: decode_with_depth_limit over a MemTrackingInput: ok={} used_mem()={} but directly ok={} U={} on {}", name, ok, used, top.starts_with("ok"), u, hex_or_dash(&bs[..bs.len().min(60)])));
+					}
+				},
+				Err(_) => ctx.oracle_fail("C03", format!("{}: depth-limited decode over a memory tracker panicked", name)),
+			}
+			let r = catch_unwind(AssertUnwindSafe(|| {
+				let mut s = &bs[..];
+				let mut mi = MemTrackingInput::new(&mut s, usize::MAX);
+				let (ok, cnt) = {
+					let mut ci = CountedInput::new(&mut mi);
+					(T::decode(&mut ci).is_ok(), ci.count())
+				};
+				(ok, mi.used_mem(), cnt)
+			}));
+			if let Ok((ok, used, _)) = r {
+				if ok != top.starts_with("ok") || (ok && used != u) {
+					ctx.oracle_fail("C12", format!("{}: decode through CountedInput over a MemTrackingInput: ok={} used_mem()={} but directly ok={} U={}", name, ok, used, top.starts_with("ok"), u));
+				}
+			}
 		}
 		let cap = if thorough { 4096 } else { 96 };
 		let limits: Vec<usize> = if u <= cap {
